@@ -358,6 +358,32 @@ fn agree_outs<T: serde::de::DeserializeOwned + serde::Serialize>(text: &str) -> 
         ("wd-reader".into(), out_of(serde_saphyr::with_deserializer_from_reader_with_options(SchedReader::new(text.as_bytes(), text.len(), vec![3; n], false, std::io::ErrorKind::Other), o(), |de| T::deserialize(de)))),
     ]
 }
+/// the untyped tree behind trivially passing validation: the validating entry points must behave like the plain ones
+#[derive(serde::Deserialize)]
+#[serde(transparent)]
+struct VTree(Tree);
+impl garde::Validate for VTree {
+    type Context = ();
+    fn validate_into(&self, _ctx: &Self::Context, _parent: &mut dyn FnMut() -> garde::Path, _report: &mut garde::Report) {}
+}
+impl validator::Validate for VTree {
+    fn validate(&self) -> Result<(), validator::ValidationErrors> {
+        Ok(())
+    }
+}
+fn agree_outs_validating(text: &str) -> Vec<(String, Out)> {
+    let tj = |r: Result<VTree, serde_saphyr::Error>| out_of(r.map(|t| TJ(tree_json(&t.0))));
+    let rd = || SchedReader::new(text.as_bytes(), text.len(), vec![5; text.len().max(1)], false, std::io::ErrorKind::Other);
+    vec![
+        ("str".into(), out_of(serde_saphyr::from_str::<Tree>(text).map(|t| TJ(tree_json(&t))))),
+        ("str-valid".into(), tj(serde_saphyr::from_str_valid::<VTree>(text))),
+        ("str-validate".into(), tj(serde_saphyr::from_str_validate::<VTree>(text))),
+        ("slice-valid".into(), tj(serde_saphyr::from_slice_valid::<VTree>(text.as_bytes()))),
+        ("slice-validate".into(), tj(serde_saphyr::from_slice_validate::<VTree>(text.as_bytes()))),
+        ("reader-valid".into(), tj(serde_saphyr::from_reader_valid::<_, VTree>(rd()))),
+        ("reader-validate".into(), tj(serde_saphyr::from_reader_validate::<_, VTree>(rd()))),
+    ]
+}
 #[derive(Serialize)]
 struct TFRec<'a> {
     id: String,
@@ -608,6 +634,11 @@ pub fn run(args: &Args) -> i32 {
             w.put(&AgreeRec { id: format!("ag-i-{i}"), kind: "agree", target: "i64", yaml: t, outs: agree_outs::<i64>(t) });
         }
     }
+    // (e2) the validating entry points (validation trivially passes) on every corpus document
+    for (di, doc) in docs.iter().enumerate() {
+        if doc.is_empty() { continue; }
+        w.put(&AgreeRec { id: format!("ag-val-{di}"), kind: "agree", target: "VTree", yaml: doc, outs: agree_outs_validating(doc) });
+    }
     // (f) typed iterators and typed readers under every truncation point, fault and cap: a scalar target takes its event with a
     // single next() and never looks again, so only the deferred error check stands between a truncated prefix and an Ok value
     typed_fault_family::<i64>("i64", &["1234567\n", "12\n---\n3456\n", "-9876\n...\n", "0x1F2E\n"], &mut w, &mut stats);
@@ -649,7 +680,7 @@ pub fn run(args: &Args) -> i32 {
         for k in 0..full.len() {
             let mut fw = FaultyWriter { got: vec![], fail_at_call: None, byte_limit: Some(k), calls: 0 };
             let r = serde_saphyr::to_io_writer(&mut fw, &m);
-            let is_io = r.is_err();
+            let is_io = matches!(&r, Err(e) if format!("{e:?}").contains("IO") || format!("{e}").contains("disk full"));
             // compare on bytes: lossy conversion could hide a cut inside a multi-byte char, so hex both
             w.put(&WriterRec { id: format!("wr-byte{k}"), kind: "writer", mode: "byte", k, full: &hex(&full), received: hex(&fw.got), res: if r.is_ok() { "ok" } else { "err" }, is_io });
         }
